@@ -403,6 +403,7 @@ CALLS = [
     {"op": "delete_many", "keys": ["k", "j"], "noreply": False, "keys_as": "generator"},
     {"op": "delete_many", "keys": ["k", "zz"], "keys_as": "iter"},
     {"op": "get_many", "keys": ["k", "j"], "keys_as": "dictview"},
+    {"op": "get_many", "keys": ["k", "j"], "keys_as": "wrapper"}, {"op": "gets_many", "keys": ["j", "k"], "keys_as": "wrapper"}, {"op": "delete_many", "keys": ["k", "zz"], "keys_as": "wrapper", "noreply": False},
     {"op": "get_many", "keys": ["k", "j"], "keys_as": "tuple"},
     {"op": "delete_many", "keys": ["k", "k"], "noreply": False},
     {"op": "delete_many", "keys": ["j", "k", "j", b"k"]},
@@ -428,7 +429,7 @@ CALLS = [
 ]
 CFGS = [
     {}, {"key_prefix": b"p:"}, {"key_prefix": "p:"}, {"default_noreply": False}, {"encoding": "utf-8"}, {"encoding": "latin-1"},
-    {"allow_unicode_keys": True}, {"serde": ("pickle", 2)}, {"serde": ("compressed", 1)}, {"serde": ("json",)},
+    {"allow_unicode_keys": True}, {"serde": ("falsy-json",)}, {"serde": ("falsy-json",), "key_prefix": b"p:", "default_noreply": False}, {"serde": ("pickle", 2)}, {"serde": ("compressed", 1)}, {"serde": ("json",)},
     {"legacy": "both"}, {"legacy": "serializer"}, {"legacy": "deserializer"}, {"legacy": "deserializer", "key_prefix": b"p:"},
     {"server": "ip-no-port"}, {"server": "name-no-port", "key_prefix": b"p:"}, {"server": "name:port"}, {"server": "Name:port", "default_noreply": False}, {"server": "[v6]:port"},
     {"server": "[v6]", "serde": ("pickle", 2)}, {"server": "unix:path"}, {"server": "path", "default_noreply": False}, {"server": "tuple-text-port"},
@@ -453,7 +454,7 @@ def random_strategy(tier):
         "default_noreply": st.booleans(),
         "encoding": st.sampled_from(["ascii", "utf-8", "latin-1"]),
         "allow_unicode_keys": st.booleans(),
-        "serde": st.sampled_from([None, ("pickle", 0), ("pickle", 5), ("compressed", 1), ("compressed-default",), ("json",)]),
+        "serde": st.sampled_from([None, ("pickle", 0), ("pickle", 5), ("compressed", 1), ("compressed-default",), ("json",), ("falsy-json",)]),
         "legacy": st.sampled_from([None, None, "both", "serializer", "deserializer"]),
         "connect_timeout": st.sampled_from([None, 0.5, 3]),
         "timeout": st.sampled_from([None, 0.5, 3]),
@@ -492,7 +493,7 @@ def random_strategy(tier):
     keys = st.one_of(st.lists(st.sampled_from(["k", "j", "zz", b"q", "key:5"]), max_size=4, unique_by=lambda k: k if isinstance(k, bytes) else k.encode()),
                      st.lists(st.sampled_from(["k", "j", "zz", b"k", "key:5"]), min_size=2, max_size=5))
     # (the key collection may be any iterable, a one-shot one included)
-    shape = st.sampled_from(["list", "list", "tuple", "iter", "generator", "map", "dictview"])
+    shape = st.sampled_from(["list", "list", "tuple", "iter", "generator", "map", "dictview", "wrapper"])
     many = st.fixed_dictionaries({"op": st.sampled_from(["get_many", "gets_many"]), "keys": keys, "keys_as": shape})
     delmany = mk(st.fixed_dictionaries({"op": st.just("delete_many"), "keys": keys, "keys_as": shape}), {"noreply": noreply})
     setmany = mk(st.fixed_dictionaries({"op": st.just("set_many"), "values": st.dictionaries(st.sampled_from(["k", "j", "zz"]), value, min_size=1, max_size=3)}),
